@@ -1,4 +1,4 @@
-// Demonstrations of the eleven genuine defects (D1..D11, DESIGN.md §4) found in
+// Demonstrations of the genuine defects (D1..D17, DESIGN.md §4) found in
 // the pinned blugelabs/ice tree while deriving the static rules.  Triage only:
 // the *checks* are the static rules of icecheck.  Copy this file into a scratch
 // copy of /repo (package ice) and run `go test -run TestDefect`; every test
@@ -10,8 +10,10 @@ import (
 	"bytes"
 	"fmt"
 	"hash/crc32"
+	"io/ioutil"
 	"os"
 	"path/filepath"
+	"strings"
 	"sync"
 	"testing"
 	"time"
@@ -408,5 +410,386 @@ func TestDefectD11UnknownFieldReusedList(t *testing.T) {
 	}
 	if p, err := itr.Next(); err != nil || p != nil {
 		t.Fatalf("expected no postings, got %v %v", p, err)
+	}
+}
+
+// D12 (C08/C05/C13): found by a bug-hunting sub-agent (round 9b), confirmed and repaired.
+// TestDefectD12IteratorCountOfAbsentTerm: Count() of the postings iterator of a term that does not
+// occur in the segment must be 0 (the list has no postings); instead it
+// dereferences a nil *PostingsList and panics.
+func TestDefectD12IteratorCountOfAbsentTerm(t *testing.T) {
+	doc := &FakeDocument{
+		NewFakeField("_id", "a", true, false, false),
+		NewFakeField("f", "x", false, false, false),
+	}
+	seg, _, err := New([]segment.Document{doc}, encodeNorm)
+	if err != nil {
+		t.Fatal(err)
+	}
+
+	for _, field := range []string{"f", "nosuchfield"} {
+		dict, err := seg.Dictionary(field)
+		if err != nil {
+			t.Fatal(err)
+		}
+		pl, err := dict.PostingsList([]byte("absent"), nil, nil)
+		if err != nil {
+			t.Fatal(err)
+		}
+		if pl.Count() != 0 {
+			t.Fatalf("field %q: list count %d, want 0", field, pl.Count())
+		}
+		itr, err := pl.Iterator(true, true, true, nil)
+		if err != nil {
+			t.Fatal(err)
+		}
+		if p, err := itr.Next(); p != nil || err != nil {
+			t.Fatalf("field %q: Next = %v, %v, want nil, nil", field, p, err)
+		}
+
+		func() {
+			defer func() {
+				if r := recover(); r != nil {
+					t.Fatalf("field %q: PostingsIterator.Count() of an absent term panicked: %v", field, r)
+				}
+			}()
+			if n := itr.Count(); n != 0 {
+				t.Fatalf("field %q: iterator count %d, want 0", field, n)
+			}
+		}()
+	}
+}
+
+// D13 (C08): found by a bug-hunting sub-agent, confirmed and repaired.
+func TestDefectD13EmptyRangeEnumeratesStart(t *testing.T) {
+	doc := &FakeDocument{
+		NewFakeField("_id", "a", true, false, false),
+		NewFakeField("desc", "apple ball cat", true, true, false),
+	}
+	seg, _, err := newWithChunkMode([]segment.Document{doc}, encodeNorm, defaultChunkMode)
+	if err != nil {
+		t.Fatal(err)
+	}
+	dict, err := seg.Dictionary("desc")
+	if err != nil {
+		t.Fatal(err)
+	}
+
+	enumerate := func(start, end string) []string {
+		var got []string
+		itr := dict.Iterator(nil, []byte(start), []byte(end))
+		next, err := itr.Next()
+		for next != nil && err == nil {
+			got = append(got, next.Term())
+			next, err = itr.Next()
+		}
+		if err != nil {
+			t.Fatalf("iterator [%q,%q): %v", start, end, err)
+		}
+		return got
+	}
+
+	// controls: half-open ranges behave
+	if got := enumerate("ball", "cat"); len(got) != 1 || got[0] != "ball" {
+		t.Fatalf("[ball,cat): got %q, want [ball]", got)
+	}
+	if got := enumerate("b", "b"); len(got) != 0 {
+		t.Fatalf("[b,b): got %q, want nothing", got)
+	}
+	// the empty range whose bound is a live term
+	for _, k := range []string{"apple", "ball", "cat"} {
+		if got := enumerate(k, k); len(got) != 0 {
+			t.Errorf("[%q,%q) is empty, but the dictionary enumerated %q", k, k, got)
+		}
+	}
+}
+
+// D14 (C05): found by a bug-hunting sub-agent, confirmed and repaired.
+func TestDefectD14AdvanceBeyond32Bits(t *testing.T) {
+	var docs []segment.Document
+	for _, id := range []string{"a", "b", "c"} {
+		docs = append(docs, &FakeDocument{
+			NewFakeField("_id", id, true, false, false),
+			NewFakeField("f", "x", false, false, false),
+		})
+	}
+	seg, _, err := New(docs, encodeNorm)
+	if err != nil {
+		t.Fatal(err)
+	}
+	dict, err := seg.Dictionary("f")
+	if err != nil {
+		t.Fatal(err)
+	}
+
+	const target = uint64(1) << 32 // > every possible document number
+
+	for _, except := range []*roaring.Bitmap{nil, roaring.BitmapOf(1)} {
+		for _, withFreqNorm := range []bool{false, true} {
+			pl, err := dict.PostingsList([]byte("x"), except, nil)
+			if err != nil {
+				t.Fatal(err)
+			}
+			itr, err := pl.Iterator(withFreqNorm, withFreqNorm, false, nil)
+			if err != nil {
+				t.Fatal(err)
+			}
+			p, err := itr.Advance(target)
+			if err != nil {
+				t.Fatal(err)
+			}
+			if p != nil {
+				t.Errorf("except=%v freqNorm=%v: Advance(%d) returned document %d, want end (nil)",
+					except, withFreqNorm, target, p.Number())
+			}
+			p, err = itr.Next()
+			if err != nil {
+				t.Fatal(err)
+			}
+			if p != nil {
+				t.Errorf("except=%v freqNorm=%v: Next after Advance past the end returned document %d, want nil",
+					except, withFreqNorm, p.Number())
+			}
+		}
+	}
+}
+
+// D15 (C18): found by a bug-hunting sub-agent, confirmed and repaired.
+type huntH3Term struct {
+	field string
+	term  string
+}
+
+func (t huntH3Term) Field() string { return t.field }
+func (t huntH3Term) Term() []byte  { return []byte(t.term) }
+
+func TestDefectD15EmptyFieldNameInDocsMatchingTerms(t *testing.T) {
+	docs := []segment.Document{
+		&FakeDocument{
+			NewFakeField("_id", "a", true, false, false),
+			NewFakeField("", "x", false, false, false),
+		},
+		&FakeDocument{
+			NewFakeField("_id", "b", true, false, false),
+			NewFakeField("", "y", false, false, false),
+		},
+	}
+	sg, _, err := newWithChunkMode(docs, encodeNorm, defaultChunkMode)
+	if err != nil {
+		t.Fatal(err)
+	}
+	seg := sg.(*Segment)
+
+	// the segment knows the field and the term: doc 0
+	dict, err := seg.Dictionary("")
+	if err != nil {
+		t.Fatal(err)
+	}
+	pl, err := dict.PostingsList([]byte("x"), nil, nil)
+	if err != nil {
+		t.Fatal(err)
+	}
+	if pl.Count() != 1 {
+		t.Fatalf("control: dictionary of field %q has %d docs for x, want 1", "", pl.Count())
+	}
+
+	// control: same pair, preceded by another field -> found
+	bm, err := seg.DocsMatchingTerms([]segment.Term{huntH3Term{"_id", "nosuch"}, huntH3Term{"", "x"}})
+	if err != nil {
+		t.Fatal(err)
+	}
+	if got := bm.ToArray(); len(got) != 1 || got[0] != 0 {
+		t.Fatalf("control: [(_id,nosuch) (\"\",x)] -> %v, want [0]", got)
+	}
+
+	// the pair first in the list -> must be the same set
+	bm, err = seg.DocsMatchingTerms([]segment.Term{huntH3Term{"", "x"}})
+	if err != nil {
+		t.Fatal(err)
+	}
+	if got := bm.ToArray(); len(got) != 1 || got[0] != 0 {
+		t.Errorf("[(\"\",x)] -> %v, want [0]", got)
+	}
+	bm, err = seg.DocsMatchingTerms([]segment.Term{huntH3Term{"", "x"}, huntH3Term{"", "y"}, huntH3Term{"_id", "nosuch"}})
+	if err != nil {
+		t.Fatal(err)
+	}
+	if got := bm.ToArray(); len(got) != 2 {
+		t.Errorf("[(\"\",x) (\"\",y) (_id,nosuch)] -> %v, want [0 1]", got)
+	}
+}
+
+// D16 (C19): found by a bug-hunting sub-agent, confirmed and repaired.
+
+func TestDefectD16HalfLoadedPostingsChunk(t *testing.T) {
+	// two documents so that the term "x" is not a 1-hit term; the field has
+	// term vectors, so its postings carry locations
+	batch := []segment.Document{
+		&FakeDocument{
+			NewFakeField("_id", "a", true, false, false),
+			NewFakeField("body", "x", false, true, false),
+		},
+		&FakeDocument{
+			NewFakeField("_id", "b", true, false, false),
+			NewFakeField("body", "x", false, true, false),
+		},
+	}
+	built, _, err := New(batch, encodeNorm)
+	if err != nil {
+		t.Fatal(err)
+	}
+
+	f, err := ioutil.TempFile("", "hunt-h4-d1")
+	if err != nil {
+		t.Fatal(err)
+	}
+	defer os.Remove(f.Name())
+	defer f.Close()
+	if _, err = built.WriteTo(f, nil); err != nil {
+		t.Fatal(err)
+	}
+	data, err := segment.NewDataFile(f)
+	if err != nil {
+		t.Fatal(err)
+	}
+	seg, err := Load(data)
+	if err != nil {
+		t.Fatal(err)
+	}
+
+	dict, err := seg.Dictionary("body")
+	if err != nil {
+		t.Fatal(err)
+	}
+	pl, err := dict.PostingsList([]byte("x"), nil, nil)
+	if err != nil {
+		t.Fatal(err)
+	}
+	itr, err := pl.Iterator(true, true, true, nil)
+	if err != nil {
+		t.Fatal(err)
+	}
+
+	// the storage starts failing: everything from the location data of this
+	// term onwards becomes unreadable, the freq/norm data before it stay
+	// readable
+	pi := itr.(*PostingsIterator)
+	if pi.locReader.dataStartOffset <= pi.freqNormReader.dataStartOffset {
+		t.Fatalf("unexpected layout")
+	}
+	if err = f.Truncate(int64(pi.locReader.dataStartOffset)); err != nil {
+		t.Fatal(err)
+	}
+
+	// the call during which the storage fails must report it
+	p, err := itr.Next()
+	if err == nil {
+		t.Fatalf("first Next: storage error not reported, posting %v", p)
+	}
+
+	// later calls must neither panic nor invent a posting from half-loaded state
+	func() {
+		defer func() {
+			if r := recover(); r != nil {
+				t.Fatalf("second Next after a reported storage error panicked: %v", r)
+			}
+		}()
+		p, err = itr.Next()
+		if err == nil && p != nil {
+			t.Fatalf("second Next after a reported storage error returned posting doc=%d freq=%d although its chunk could not be loaded",
+				p.Number(), p.Frequency())
+		}
+	}()
+}
+
+// D17 (C19): found by a bug-hunting sub-agent, confirmed and repaired.
+
+func TestDefectD17MixedDocValueHeader(t *testing.T) {
+	// 2048 documents = two doc-value chunks (1024 docs each). Documents of
+	// chunk 0 carry a long term, documents of chunk 1 a short one.
+	long := strings.Repeat("L", 100)
+	var batch []segment.Document
+	for i := 0; i < 2048; i++ {
+		term := long
+		if i >= 1024 {
+			term = "s"
+		}
+		batch = append(batch, &FakeDocument{
+			&FakeField{N: "_id", V: []byte(fmt.Sprintf("%04d", i)), S: true,
+				T: []*FakeTerm{{T: fmt.Sprintf("%04d", i), F: 1}}},
+			&FakeField{N: "body", DV: true, T: []*FakeTerm{{T: term, F: 1}}},
+		})
+	}
+	built, _, err := New(batch, encodeNorm)
+	if err != nil {
+		t.Fatal(err)
+	}
+
+	f, err := ioutil.TempFile("", "hunt-h4-d2")
+	if err != nil {
+		t.Fatal(err)
+	}
+	defer os.Remove(f.Name())
+	defer f.Close()
+	if _, err = built.WriteTo(f, nil); err != nil {
+		t.Fatal(err)
+	}
+	data, err := segment.NewDataFile(f)
+	if err != nil {
+		t.Fatal(err)
+	}
+	segI, err := Load(data)
+	if err != nil {
+		t.Fatal(err)
+	}
+	seg := segI.(*Segment)
+
+	dvr, err := seg.DocumentValueReader([]string{"body"})
+	if err != nil {
+		t.Fatal(err)
+	}
+	visit := func(doc uint64) (terms []string, err error) {
+		err = dvr.VisitDocumentValues(doc, func(field string, term []byte) {
+			terms = append(terms, string(term))
+		})
+		return terms, err
+	}
+
+	// healthy storage: chunk 1 gets cached in the reader
+	// (two calls: the reader settles its per-segment state on the second)
+	for _, doc := range []uint64{1500, 1501} {
+		terms, err := visit(doc)
+		if err != nil || len(terms) != 1 || terms[0] != "s" {
+			t.Fatalf("healthy read: %v %v", terms, err)
+		}
+	}
+
+	// the storage starts failing inside the header of chunk 0 of this field
+	// (the header starts at dvDataLoc: 2 bytes entry count, then 2 bytes per
+	// document; reads look 10 bytes ahead)
+	loc := seg.fieldDvReaders[seg.fieldsMap["body"]-1].dvDataLoc
+	if err = f.Truncate(int64(loc) + 2 + 2*10 + 9); err != nil {
+		t.Fatal(err)
+	}
+
+	// the call during which the storage fails must report an error or nothing
+	terms, err := visit(5)
+	if err == nil && len(terms) != 0 {
+		t.Fatalf("failing read returned %v without error", terms)
+	}
+
+	// later calls must not panic; whatever they still report must be right
+	for doc := uint64(1024); doc < 2048; doc++ {
+		func() {
+			defer func() {
+				if r := recover(); r != nil {
+					t.Fatalf("VisitDocumentValues(%d) after a reported storage error panicked: %v", doc, r)
+				}
+			}()
+			terms, err := visit(doc)
+			if err == nil && len(terms) != 0 && (len(terms) != 1 || terms[0] != "s") {
+				t.Fatalf("VisitDocumentValues(%d) after a reported storage error returned wrong terms %q", doc, terms)
+			}
+		}()
 	}
 }
